@@ -492,7 +492,10 @@ class CParser:
         self._tokens.reset(mark)
 
     def _tok_coord(self, tok: Token) -> Coord:
-        return self._coord(tok.lineno, tok.column)
+        # Use the file name in effect when the token was lexed: by the time a
+        # node is built the lexer may have read ahead past a #line directive.
+        filename = getattr(tok, "filename", "") or self.clex.filename
+        return Coord(file=filename, line=tok.lineno, column=tok.column)
 
     def _starts_declaration(self, tok: Optional[Token] = None) -> bool:
         tok = tok or self._peek()
